@@ -28,6 +28,10 @@ for c in conflicts:
 def norm(e):
     # ids are scoped by property: (property, id) is the key; builders numbered independently
     return e
+# a branch only contributes findings of its own properties (named in the branch: c06c07-r2 -> C06, C07)
+own = set('C' + m for m in re.findall(r'c?(\d\d)', br.split('-')[0]))
+theirs = [e for e in theirs if e['property'] in own]
+ours = [e for e in ours if e['property'] not in own] if own and theirs else ours
 seen, out = set(), []
 for e in [norm(x) for x in ours] + [norm(x) for x in theirs]:
     key = (e['property'], e['id'])
